@@ -92,6 +92,8 @@ type Def struct {
 	Zone      int       `json:"zone,omitempty"`
 	South     bool      `json:"south,omitempty"`
 	Axis      string    `json:"axis,omitempty"`
+	// OmitDefaults: parameters whose value is PROJ's default (lat_0, lon_0, x_0, y_0 = 0; k/k_0 = 1) are left out of the text
+	OmitDefaults bool `json:"omit_defaults,omitempty"`
 }
 
 func f(v float64) string { return strconv.FormatFloat(v, 'f', -1, 64) } // no exponent: '+' separates PROJ.4 parameters
@@ -100,6 +102,14 @@ func f(v float64) string { return strconv.FormatFloat(v, 'f', -1, 64) } // no ex
 func (d Def) String() string {
 	var sb strings.Builder
 	w := func(s string) { sb.WriteString(s); sb.WriteByte(' ') }
+	// wd writes "+name=value" unless the definition relies on PROJ's default for that parameter (0 for lat_0, lon_0, x_0,
+	// y_0; 1 for the scale factor) and the value is that default
+	wd := func(name string, v, def float64) {
+		if d.OmitDefaults && v == def {
+			return
+		}
+		w("+" + name + "=" + f(v))
+	}
 	w("+proj=" + d.Proj)
 	switch d.Proj {
 	case "utm":
@@ -109,38 +119,38 @@ func (d Def) String() string {
 		}
 	case "longlat":
 	case "krovak":
-		w("+lat_0=" + f(d.Lat0))
+		w("+lat_0=" + f(d.Lat0)) // krovak has defaults of its own: always spelled out
 		w("+lon_0=" + f(d.Lon0))
 		w("+k=" + f(d.K0))
 		w("+x_0=" + f(d.X0))
 		w("+y_0=" + f(d.Y0))
 	case "merc":
-		w("+lon_0=" + f(d.Lon0))
+		wd("lon_0", d.Lon0, 0)
 		if d.LatTS != nil {
 			w("+lat_ts=" + f(*d.LatTS))
 		} else {
-			w("+k_0=" + f(d.K0))
+			wd("k_0", d.K0, 1)
 		}
-		w("+x_0=" + f(d.X0))
-		w("+y_0=" + f(d.Y0))
+		wd("x_0", d.X0, 0)
+		wd("y_0", d.Y0, 0)
 	case "lcc", "aea", "eqdc":
 		w("+lat_1=" + f(d.Lat1))
 		if !d.OneSP {
 			w("+lat_2=" + f(d.Lat2))
 		}
-		w("+lat_0=" + f(d.Lat0))
-		w("+lon_0=" + f(d.Lon0))
-		w("+x_0=" + f(d.X0))
-		w("+y_0=" + f(d.Y0))
+		wd("lat_0", d.Lat0, 0)
+		wd("lon_0", d.Lon0, 0)
+		wd("x_0", d.X0, 0)
+		wd("y_0", d.Y0, 0)
 		if d.Proj == "lcc" && d.K0 != 0 {
-			w("+k_0=" + f(d.K0))
+			wd("k_0", d.K0, 1)
 		}
 	case "tmerc":
-		w("+lat_0=" + f(d.Lat0))
-		w("+lon_0=" + f(d.Lon0))
-		w("+k=" + f(d.K0))
-		w("+x_0=" + f(d.X0))
-		w("+y_0=" + f(d.Y0))
+		wd("lat_0", d.Lat0, 0)
+		wd("lon_0", d.Lon0, 0)
+		wd("k", d.K0, 1)
+		wd("x_0", d.X0, 0)
+		wd("y_0", d.Y0, 0)
 	}
 	switch d.EllpsKind {
 	case "name":
@@ -384,6 +394,20 @@ func GenDef(t *rapid.T, o Opts) Def {
 	}
 	if o.WithAxis && rapid.IntRange(0, 2).Draw(t, "useaxis") == 0 {
 		d.Axis = rapid.SampledFrom([]string{"enu", "neu", "wnu", "esu", "wsu", "end", "swu"}).Draw(t, "axis")
+	}
+	if rapid.IntRange(0, 2).Draw(t, "omitdefaults") == 1 {
+		// rely on PROJ's defaults: parameters equal to their default are not written; to make that bite, some of them are
+		// set to the default first
+		d.OmitDefaults = true
+		if rapid.Bool().Draw(t, "zerox0") {
+			d.X0 = 0
+		}
+		if rapid.Bool().Draw(t, "zeroy0") {
+			d.Y0 = 0
+		}
+		if d.Proj == "tmerc" && rapid.Bool().Draw(t, "zerolat0") {
+			d.Lat0 = 0
+		}
 	}
 	return d
 }
